@@ -8,17 +8,24 @@ from .interp import PyRaise, mk, zof
 from .values import SymSeq, HSymList, Unsupported, fresh_name
 
 
-def with_len(seq, n, arrays=None):
-    out = SymSeq(n, seq.shape, seq.arrays if arrays is None else arrays)
+def with_len(seq, n, arrays=None, offset=None):
+    out = SymSeq(n, seq.shape, seq.arrays if arrays is None else arrays, seq.offset if offset is None else offset)
     out.pyshape = seq.pyshape
     return out
+
+
+def sub(it, seq, start, stop):
+    """seq[start:stop] for 0 <= start <= stop <= len (a view, no copy)."""
+    a, b = zof(start, "int"), zof(stop, "int")
+    return with_len(seq, z3.simplify(b - a), offset=z3.simplify(seq.offset + a) if not isinstance(seq.offset, int) or seq.offset
+                    else z3.simplify(a))
 
 
 def append(it, h, v):
     it.ctx.mutate()
     seq = h.seq
     flat = keysets.flatten(it.engine, it, seq.pyshape.elem, v)
-    arrays = keysets.store_struct(seq.arrays, flat, [seq.length])
+    arrays = keysets.store_struct(seq.arrays, flat, [z3.simplify(seq.length + seq.offset)])
     if h.maxlen is None:
         h.seq = with_len(seq, z3.simplify(seq.length + 1), arrays)
         return
@@ -33,17 +40,9 @@ def append(it, h, v):
 
 
 def shift_left(it, seq, k):
-    """seq[k:] as a new sequence (fresh arrays with a quantified definition)."""
-    from .folds import fresh_arrays, leaves
+    """seq[k:] as a view."""
     kz = zof(k, "int")
-    n = z3.simplify(seq.length - kz)
-    arrays = fresh_arrays(seq.arrays, "shift")
-    i = z3.Int(fresh_name("shi"))
-    eqs = [z3.Select(a, i) == z3.Select(b, i + kz) for a, b in zip(leaves(arrays), leaves(seq.arrays))]
-    if eqs:
-        it.ctx.assume(z3.ForAll([i], z3.Implies(z3.And(0 <= i, i < n), z3.And(*eqs)),
-                                patterns=[z3.Select(leaves(arrays)[0], i)]))
-    return with_len(seq, n, arrays)
+    return with_len(seq, z3.simplify(seq.length - kz), offset=z3.simplify(seq.offset + kz))
 
 
 def pop(it, h, idx=None):
